@@ -16,6 +16,7 @@ func init() {
 	register("ARITY", "every call through the Body/BodyVec field of a registered function is preceded on every path by both arity tests (fixed arity: len(args) == NumArgs; variadic: len(args) >= NumArgs); a registered body indexes args[k] with a constant k only if k < NumArgs of every row registering it or under a len(args) guard", ruleArity)
 	register("BODYKIND", "for every row of the scalar function registry the dynamic types boxed into the result of Body and of BodyVec belong to the declared ReturnType (TSTR: string; TNUMBER: int64/float64/int; TBOOL: bool; TLIST: slices; TJSON: JSON) and the two twins box the same types", ruleBodyKind)
 	register("LISTCOVER", "every list consumer (len, [n] indexing in both modes, the distance functions' vector conversion, IN over a function result in both modes) has a case for every representation a list producer can box (the registry's TLIST bodies; plus []any from JSON arrays for len and indexing)", ruleListCover)
+	register("ADMIT", "what the type checker admits for = and != (operands of the same static type TSTR, TNUMBER or TBOOL) is handled by both executors: the type switch on the evaluated left operand in execEqual and execEqualBatch has a case for every representation those static types can take (no operand-type error on a well-typed statement)", ruleAdmit)
 	register("PRIMWIRE", "every documented scalar function name is registered and both its row and vector body reach the documented primitive (upper->strings.ToUpper, lower->strings.ToLower, split->strings.Split, join->strings.Join, int/is_int->strconv.ParseInt base 10, float/is_float->strconv.ParseFloat, json->json.Unmarshal, distances->math.Sqrt with a length-equality error, len/strlen->len); distinct names have distinct bodies except the documented aliases; every aggregate name has its own constructor and accumulator type", rulePrimWire)
 }
 
@@ -1123,4 +1124,70 @@ func pairedParamGuard(p *Prog, fn *ssa.Function, ta *ssa.TypeAssert, oks []*ssa.
 		}
 	}
 	return ""
+}
+
+// ---------------- ADMIT ----------------
+
+func ruleAdmit(p *Prog, r *Result) {
+	rows, err := p.registry("funcMap")
+	if err != nil {
+		r.undecided("%v", err)
+		return
+	}
+	tn := p.typedConsts("Type")
+	need := map[string]bool{}
+	for _, row := range rows {
+		switch tn[row.Ret] {
+		case "TSTR", "TNUMBER", "TBOOL":
+			if row.Body != nil {
+				k, _ := p.bodyKinds(row.Body)
+				for x := range k {
+					need[x] = true
+				}
+			}
+		}
+	}
+	// literal and keyword leaves
+	for _, t := range p.exprTypes() {
+		switch t.Obj().Name() {
+		case "StringExpr", "NumberExpr", "FloatExpr", "BoolExpr", "FieldExpr":
+			if f := p.Method(t, "Execute"); f != nil {
+				k, _ := p.bodyKinds(f)
+				for x := range k {
+					need[x] = true
+				}
+			}
+		}
+	}
+	if need["[]uint8"] {
+		delete(need, "[]uint8")
+		need["[]byte"] = true
+	}
+	r.note("representations_admitted_for_equality", keysOf(need))
+	if len(need) < 4 {
+		r.undecided("floor: representations admitted for equality = %d", len(need))
+		return
+	}
+	for _, nm := range []string{"execEqual", "execEqualBatch"} {
+		f := p.MethodByName("BinaryOpExpr", nm)
+		if f == nil {
+			r.undecided("anchor: (*BinaryOpExpr).%s not found", nm)
+			continue
+		}
+		have := switchCases(f, func(v ssa.Value) bool {
+			_, isI := v.Type().Underlying().(*types.Interface)
+			return isI
+		})
+		if have["[]uint8"] {
+			have["[]byte"] = true
+		}
+		var missing []string
+		for k := range need {
+			if !have[k] {
+				missing = append(missing, k)
+			}
+		}
+		sort.Strings(missing)
+		r.add(len(missing) == 0, "eq|"+nm, p.Pos(f.Pos()), fmt.Sprintf("= / != handle %v; missing %v", keysOf(have), missing))
+	}
 }
